@@ -41,7 +41,10 @@ type plan struct {
 	// odd carriers (non-POST method with body and Content-Type); above fullOps operations only the
 	// GET ones unless oddAllLarge
 	oddSmall, oddLarge []config
-	oddAllLarge        bool
+	// related-name documents are sent under the reduced ("large") products
+	relatedNamesReduced   bool
+	namesExec, namesOther []config // thorough products for related-name documents
+	oddAllLarge           bool
 	// histories: configurations per history; whether documents above fullOps also get the
 	// cross-carrier and sibling shapes (they always get "the same request twice")
 	hist               []config
@@ -67,7 +70,8 @@ func makePlan(tier string) plan {
 		// the complete product for every document and every carrier
 		return plan{maxOps: 3, fullOps: 3, execSmall: all, execLarge: all, otherSmall: all, otherLarge: all, apq: singles,
 			hist: product(acceptSingles[:4], []string{"nil", "ct-gr"}, orderAlphabet), histAllShapesLarge: true,
-			oddSmall: product(acceptSingles[:4], rhAlphabet, orderAlphabet), oddLarge: product(acceptSingles[:4], rhAlphabet, orderAlphabet), oddAllLarge: true}
+			oddSmall: product(acceptSingles[:4], rhAlphabet, orderAlphabet), oddLarge: product(acceptSingles[:4], rhAlphabet, orderAlphabet), oddAllLarge: true,
+			namesExec: singles, namesOther: product([]string{"", mtGR}, []string{"nil", "custom"}, orderAlphabet)}
 	}
 	// quick: for executing carriers on documents with up to 2 operations, in the default order every
 	// Accept value x {no ResponseHeaders, custom header} plus the single-value Accept headers x the two
@@ -85,7 +89,7 @@ func makePlan(tier string) plan {
 		apq:        product(acceptSingles[:4], []string{"nil", "ct-gr"}, []string{"default"}),
 		hist:       product([]string{"", mtGR}, []string{"nil"}, []string{"default"}),
 		oddSmall:   product([]string{"", mtGR}, []string{"nil"}, orderAlphabet),
-		oddLarge:   product([]string{""}, []string{"nil"}, orderAlphabet)}
+		oddLarge:   product([]string{""}, []string{"nil"}, orderAlphabet), relatedNamesReduced: true}
 }
 
 type hit struct {
@@ -180,14 +184,30 @@ func (t *tally) merge(o *tally) {
 
 // casesFor enumerates every case of one document, in a fixed order.
 func casesFor(d DocSpec, p plan, f func(Case)) {
-	large := len(d.Ops) > p.fullOps
+	// documents with related names get the products of the documents above fullOps (quick)
+	large := len(d.Ops) > p.fullOps || (d.Names != "" && p.relatedNamesReduced)
 	for _, on := range opNameChoices(d) {
 		for _, car := range carriers {
 			if !car.OpName && on.Has {
 				continue
 			}
+			if d.Names != "" {
+				// related-name documents: odd carriers only for the two JSON request media types;
+				// quick additionally drops the carriers that can never execute anything
+				jsonCT := car.ReqCT == "application/json" || car.ReqCT == "application/graphql+json"
+				if (car.Odd && !jsonCT) || (p.relatedNamesReduced && !car.Executes && !car.Odd) {
+					continue
+				}
+			}
 			var cs []config
 			switch {
+			case d.Names != "" && !p.relatedNamesReduced && !car.APQ:
+				// thorough: single-value Accept headers x all ResponseHeaders x both orders for
+				// executing carriers, a small product for the others
+				cs = p.namesOther
+				if car.Executes && !car.Odd {
+					cs = p.namesExec
+				}
 			case car.Odd && !large:
 				cs = p.oddSmall
 			case car.Odd:
@@ -226,7 +246,8 @@ var histCarriers = []string{"GET", "POST", "FORM-json", "GRAPHQL", "MULTIPART"}
 //
 // every history runs on a fresh default-configuration server (query cache + APQ).
 func historiesFor(d DocSpec, p plan, f func(Case)) {
-	large := len(d.Ops) > p.fullOps
+	// documents with related names get the products of the documents above fullOps (quick)
+	large := len(d.Ops) > p.fullOps || (d.Names != "" && p.relatedNamesReduced)
 	allShapes := !large || p.histAllShapesLarge
 	base := DocSpec{Ops: d.Ops}
 	for _, on := range opNameChoices(d) {
@@ -389,15 +410,18 @@ func main() {
 	c.Cov["histories_by_shape"] = total.byHistory
 	c.Cov["disagreeing_cases_by_signature"] = sigCounts
 	c.Cov["bounds"] = map[string]any{
-		"operations_per_document": fmt.Sprintf("1..%d", p.maxOps),
-		"operation_alphabet":      opAlphabet(),
-		"faults":                  []string{"none", "parse error in operation i", "unknown field in operation i", "(implied) anonymous operation not alone"},
-		"operation_name":          "absent, each defined name, one unknown name",
-		"carriers":                carrierNames(),
-		"accept_values":           len(acceptAlphabet()),
-		"accept_singles":          acceptSingles,
-		"response_headers":        rhAlphabet,
-		"registration_orders":     orderAlphabet,
+		"operations_per_document":         fmt.Sprintf("1..%d", p.maxOps),
+		"operation_alphabet":              opAlphabet(),
+		"faults":                          []string{"none", "parse error in operation i", "unknown field in operation i", "(implied) anonymous operation not alone"},
+		"operation_name":                  "absent, each defined name, one unknown name; related-name documents: also every near-miss of every defined name (upper, lower, first letter in other case, last character dropped, one character appended, leading space, trailing space)",
+		"related_name_documents_carriers": map[bool]string{true: "executing carriers, APQ, GET+body/GET+decoy with application/json and application/graphql+json; reduced products", false: "all carriers except odd ones with non-JSON media types; single-value Accept x ResponseHeaders x orders for executing carriers, 8 configurations for the others"}[p.relatedNamesReduced],
+		"related_name_documents":          "every fault-free document of 1..3 named operations (all kind sequences) under each name scheme",
+		"name_schemes":                    nameSchemes,
+		"carriers":                        carrierNames(),
+		"accept_values":                   len(acceptAlphabet()),
+		"accept_singles":                  acceptSingles,
+		"response_headers":                rhAlphabet,
+		"registration_orders":             orderAlphabet,
 		"configs_per_triple": map[string]int{
 			fmt.Sprintf("executing carriers, documents with <=%d operations", p.fullOps):     len(p.execSmall),
 			fmt.Sprintf("executing carriers, documents with >%d operations", p.fullOps):      len(p.execLarge),
